@@ -17,7 +17,10 @@ RULE = (
     "materialised before advancing). Oracle: dict model - each expected name "
     "once, each expected trace once under its name, each span once with its "
     "parent and exactly its children (as a set, no repeats), all columns "
-    "equal. Non-trivial: >=2 names and some trace larger than the batch "
+    "equal. Second observation point: the same store (a quarter of the cases "
+    "with a span whose parent is in no trace) is consumed through "
+    "sequence_otel_job_id_streams; exactly the connected traces must come "
+    "out, each with all its spans. Non-trivial: >=2 names and some trace larger than the batch "
     "size. Distinct by serialised case.")
 ASSUMPTIONS = [
     "store is clean: all spans of a trace carry one workflow name, parents "
@@ -31,10 +34,13 @@ BATCHES = (1, 2, 3, 7, 1000)
 
 def spans_of(case):
     out = []
+    ghosts = {tuple(g) for g in case.get("ghost", [])}
     for ti, (name, jid, parents, types) in enumerate(case["traces"]):
         for k, p in enumerate(parents):
             out.append(dict(
-                event_id=f"{jid}-s{k}", parent=None if p is None else f"{jid}-s{p}",
+                event_id=f"{jid}-s{k}",
+                parent=("ghost-" + jid if (ti, k) in ghosts and k > 0 else
+                        None if p is None else f"{jid}-s{p}"),
                 typ=types[k], job_id=jid, name=name,
                 start=1000 * ti + k, end=1000 * ti + k + 3))
     order = case.get("order")
@@ -132,9 +138,60 @@ def check_case(case):
             store.dispose(h)
 
 
+def check_sequencing(case):
+    """Second observation point (the per-trace materialisation in front of
+    the sequencer): every connected trace of the store must come out of
+    sequence_otel_job_id_streams as one PV job with all its spans; a trace
+    whose tree is broken (a parent that is not in the trace) is skipped and
+    must not affect the others."""
+    from tel2puml.otel_to_pv.sequence_otel import sequence_otel_job_id_streams
+    spans = spans_of(case)
+    if case.get("filter_names") or case.get("id_map"):
+        return
+    by_trace = {}
+    for s in spans:
+        by_trace.setdefault((s["name"], s["job_id"]), []).append(s)
+    want = {}
+    for (name, jid), ss in by_trace.items():
+        ids = {x["event_id"] for x in ss}
+        if all(x["parent"] is None or x["parent"] in ids for x in ss) and \
+                sum(1 for x in ss if x["parent"] is None) == 1:
+            want[jid] = ids
+    events = [store.otel_event(s["event_id"], s["parent"], s["typ"],
+                               s["job_id"], s["name"], s["start"], s["end"])
+              for s in spans]
+    h = store.new_holder(batch_size=2)
+    try:
+        store.ingest(h, events)
+        got = {}
+        try:
+            for name, traces in h.stream_data():
+                for job in sequence_otel_job_id_streams(traces):
+                    evs = list(job)
+                    if not evs:
+                        continue
+                    jid = evs[0]["jobId"]
+                    if jid in got:
+                        raise Violation(f"sequencing: trace {jid} twice")
+                    got[jid] = {e["eventId"] for e in evs}
+        except Violation:
+            raise
+        except Exception as e:
+            raise Violation(f"sequencing the stream raised "
+                            f"{type(e).__name__}: {e}")
+        if got != want:
+            raise Violation(
+                f"sequencing the stream: PV jobs for traces {sorted(got)}, "
+                f"connected traces in the store are {sorted(want)} (spans "
+                f"differ for {[j for j in got if j in want and got[j] != want[j]]})")
+    finally:
+        store.dispose(h)
+
+
 def replay(case):
     try:
         check_case(case)
+        check_sequencing(case)
     except Violation as v:
         return str(v)
     return None
@@ -146,6 +203,8 @@ def classify(case):
     classes = [f"names={len(names)}"]
     if len({n.lower() for n in names}) < len(names):
         classes.append("names_equal_ignoring_case")
+    if case.get("ghost"):
+        classes.append("trace_with_missing_parent")
     if case.get("filter_names"):
         classes.append("filter_names")
     if case.get("id_map"):
@@ -182,8 +241,15 @@ def case_strategy():
             jid = f"{jid}_{ti}"
             traces.append([name, jid, parents, types])
         total = sum(len(t[2]) for t in traces)
+        ghost = []
+        if draw(st.integers(0, 3)) == 0:
+            for ti, t in enumerate(traces):
+                if len(t[2]) >= 2 and draw(st.integers(0, 2)) == 0:
+                    ghost.append([ti, draw(st.integers(1, len(t[2]) - 1))])
         case = {"traces": traces,
                 "order": list(draw(st.permutations(list(range(total)))))}
+        if ghost:
+            case["ghost"] = ghost
         mode = draw(st.integers(0, 3))
         present = sorted({t[0] for t in traces})
         if mode in (1, 3):
@@ -229,5 +295,6 @@ def run_shard(ctx):
         ctx.record(case, nt, classes)
         ctx.count("store_rounds", len(BATCHES))
         check_case(case)
+        check_sequencing(case)
     ctx.run_given(case_strategy(), fn, 100 if ctx.tier == "quick" else 2500,
                   shrinker=shrinker)
